@@ -385,6 +385,11 @@ func (t Token) canTransfer(ctx storage.Context, from, to interop.Hash160, amount
 		emptyAcc = Account{}
 	)
 
+	if amount < 0 {
+		runtime.Log("negative amount")
+		return emptyAcc, false
+	}
+
 	if !innerRing {
 		if len(to) != interop.Hash160Len || !isUsableAddress(from) {
 			runtime.Log("bad script hashes")
